@@ -89,23 +89,51 @@ def coq_make(targets, timeout=1500):
     return rc == 0, out, failing
 
 
-def grep_forbidden():
-    """Return list of (file, line, text) of forbidden constructs in the development
-    (Section-local Variable/Hypothesis/Context are reported too unless the line is inside a
-    Section; we simply do not use them)."""
-    hits = []
-    for root, _, files in os.walk(COQ):
-        for fn in files:
-            if not fn.endswith(".v"):
+def coq_deps(targets):
+    """Transitive .v dependencies (inside coq/) of the given .vo targets, from coq_makefile's .Makefile.d"""
+    depfile = os.path.join(COQ, ".Makefile.d")
+    graph = {}
+    if os.path.exists(depfile):
+        with open(depfile) as f:
+            text = f.read().replace("\\\n", " ")
+        for line in text.splitlines():
+            if ":" not in line:
                 continue
-            p = os.path.join(root, fn)
-            with open(p, errors="replace") as f:
-                text = f.read()
-            # strip comments (nested)
-            text = strip_coq_comments(text)
-            for i, line in enumerate(text.splitlines(), 1):
-                if FORBIDDEN.search(line):
-                    hits.append((os.path.relpath(p, COQ), i, line.strip()))
+            lhs, rhs = line.split(":", 1)
+            outs = [x for x in lhs.split() if x.endswith(".vo")]
+            deps = [x for x in rhs.split() if x.endswith(".vo") and not x.startswith("/")]
+            for o in outs:
+                graph.setdefault(o, set()).update(deps)
+    seen = set()
+    todo = list(targets)
+    while todo:
+        t = todo.pop()
+        if t in seen:
+            continue
+        seen.add(t)
+        todo.extend(graph.get(t, ()))
+    return sorted(x[:-1] for x in seen)   # .vo -> .v
+
+
+def grep_forbidden(targets=None):
+    """Return list of (file, line, text) of forbidden constructs in the files the targets depend on
+    (all of coq/ when targets is None).  Comments are stripped first."""
+    hits = []
+    if targets is None:
+        files = []
+        for root, _, fs in os.walk(COQ):
+            files.extend(os.path.relpath(os.path.join(root, fn), COQ) for fn in fs if fn.endswith(".v"))
+    else:
+        files = coq_deps(targets)
+    for rel in files:
+        p = os.path.join(COQ, rel)
+        if not os.path.exists(p):
+            continue
+        with open(p, errors="replace") as f:
+            text = strip_coq_comments(f.read())
+        for i, line in enumerate(text.splitlines(), 1):
+            if FORBIDDEN.search(line):
+                hits.append((rel, i, line.strip()))
     return hits
 
 
